@@ -144,9 +144,64 @@ def guards(ctx, rule="C17.guards"):
     ctx.floor(rule, 33)
 
 
+def exact_special_cases(ctx, rule="C17.exact-cases"):
+    from .common_guard import path_facts
+    ctx.explain(f"{rule}: where a decomposition routine replaces a data-dependent angle (arctan / angle of matrix elements) by a CONSTANT "
+                "in a special case (an element is zero: no rotation, or a swap), the special case is selected by an EXACT test of the "
+                "element (`== 0`): under a tolerance test (np.isclose, abs(x) < tol) an element of size 1e-9 is treated as zero, its "
+                "nulling rotation is dropped and the factors no longer multiply back to the input within numerical precision.")
+    n = 0
+    for f in ctx.tree.module(DEC).functions.values():
+        rd = rd_of(f.node)
+        cfg = rd.cfg
+        by_var = {}
+        for ds in rd.defs_at.values():
+            for d in ds:
+                if d.kind == "assign" and isinstance(d.value, ast.AST) and d.index is None:
+                    by_var.setdefault(d.var, set()).add(d)
+        for var, ds in sorted(by_var.items()):
+            def data_dependent(v):
+                return any(isinstance(x, ast.Call) and (dotted(x.func) or "").split(".")[-1] in ("arctan", "arctan2", "angle", "arccos", "arcsin")
+                           for x in ast.walk(v))
+
+            def constant(v):
+                return all(x.id in ("np", "pi", "math", "numpy") for x in ast.walk(v) if isinstance(x, ast.Name)) and \
+                    not any(isinstance(x, (ast.Subscript, ast.Call)) for x in ast.walk(v))
+            if not any(data_dependent(d.value) for d in ds):
+                continue
+            k = 0
+            common = set()
+            for d in ds:
+                if data_dependent(d.value):
+                    common |= {(ast.unparse(a), v) for a, v in path_facts(cfg, d.node)}
+            for d in sorted((d for d in ds if constant(d.value)), key=lambda d: d.stmt.lineno):
+                if isinstance(d.value, ast.Constant) and d.value.value is None:
+                    continue
+                # the facts that select THIS branch (not the validation guards shared with the general case) and test an element
+                fs = [(a, v) for a, v in path_facts(cfg, d.node) if (ast.unparse(a), v) not in common
+                      and any(isinstance(x, ast.Subscript) for x in ast.walk(a))]
+                if not fs:
+                    continue            # an initialisation, or a case selected by loop indices - not an element test
+                k += 1
+                n += 1
+                bad = None
+                for a, v in fs:
+                    r_ = rel(a, v)
+                    exact = r_ is not None and r_[0] == "==" and any(isinstance(x, ast.Constant) and x.value == 0 for x in (r_[1], r_[2]))
+                    if not exact:
+                        bad = a
+                ok = bad is None
+                ctx.ob(rule, f.site, ok, "" if ok else f"`{var} = {ast.unparse(d.value)[:20]}` is selected by "
+                       f"`{ast.unparse(bad)[:50]}`, not by an exact zero test: a small but non-zero element loses its rotation",
+                       role=f"exact:{var}:{k}", line=d.stmt.lineno)
+    ctx.require(n >= 4, f"only {n} constant special cases of data-dependent angles found in decompositions.py")
+    ctx.floor(rule, 4)
+
+
 def rules(ctx):
     guards(ctx)
     symmetric_not_hermitian(ctx)
+    exact_special_cases(ctx)
 
 
 def symmetric_not_hermitian(ctx, rule="C17.guards"):
